@@ -4,9 +4,9 @@ CONSTANTS
   K = 2
   NF = 3
   NG = 1
-  PF = "p2a"
+  PF = "p2s"
   TF = "t22s"
-  PG = "p2a"
+  PG = "p2s"
   TG = "t22s"
   LAYOUTS = {"dfs", "hole", "low"}
   EMIT = TRUE
